@@ -1348,3 +1348,47 @@ class _RadixReader:
         self.guards()
         self.results()
         self.flush()
+
+
+def container_elements_converted(ctx, facts, roots, cfg, clause):
+    """A container becomes a number (or a primitive) only through its string form: ECMAScript's ToPrimitive of an array
+    is `join(",")`, so `[true]` is "true" is NaN — never "the value of its only element".  Positive evidence of the
+    contrary: in the reach of `roots`, a value → number / primitive conversion of the crate is applied to an *element*
+    of a JSON container — its argument derives from the Array/Object payload of a value, or from a parameter / local
+    that is a collection of owned `serde_json::Value`s (the operand list is a collection of `&Value`s and is not one)."""
+    from .core import expr_mentions
+    items = facts.items
+
+    def is_conv(k):
+        it = items.get(k, {})
+        out = it.get("output", "")
+        return it.get("inputs") and all(x.endswith("serde_json::Value") for x in it["inputs"]) and len(it["inputs"]) <= 2 and \
+            (out == "std::option::Option<f64>" or out.startswith("std::result::Result<f64") or out.endswith("::Primitive") or out == "f64")
+    owned_coll = re.compile(r"(\[serde_json::Value(; \d+)?\]|Vec<serde_json::Value>|Iter<'\w*, serde_json::Value>|Map<std::string::String, serde_json::Value>)")
+    n = 0
+    found = []
+    for k in sorted(facts.reach(list(roots))):
+        b = facts.body(k)
+        if b is None or b.kind not in ("fn", "closure"):
+            continue
+        colls = {l for l in range(len(b.locals)) if owned_coll.search(b.local_ty(l) or "")}
+        for bi, t in b.calls():
+            c = callee_of(t)
+            if not c or not c.get("local") or not is_conv(c["key"]):
+                continue
+            n += 1
+            for a in t["args"]:
+                e = b.xtrace(a) if hasattr(b, "xtrace") else b.trace(a)
+                opened = expr_mentions(e, lambda y: isinstance(y, tuple) and y and y[0] == "downcast" and y[2] in ("Array", "Object"))
+                elem = expr_mentions(e, lambda y: isinstance(y, tuple) and y and ((y[0] == "arg" and y[1] in colls and b.kind == "fn") or (y[0] == "carg" and False)))
+                if not elem and b.kind == "closure":
+                    elem = expr_mentions(b.trace(a), lambda y: isinstance(y, tuple) and y and y[0] == "arg" and y[1] >= 2 and y[1] in colls)
+                if opened or elem:
+                    found.append((b, bi, c["key"]))
+                    break
+    for b, bi, ck in found:
+        ctx.fail(clause, "%s → %s" % (b.key.split("::", 1)[1], ck.split("::", 1)[1]),
+                 "%s applies the conversion %s to an element of a JSON container: a container converts through its string form only ([true] is \"true\", not 1)" % (b.key.split("::", 1)[1], ck.split("::", 1)[1]),
+                 where=b.where(bi), fn=b.key)
+    if not found:
+        ctx.ok(clause, "no numeric conversion is applied to an element of a container (%d conversion call sites, %s)" % (n, cfg), nontrivial=True)
